@@ -133,25 +133,40 @@ def check(ctx) -> None:
 
 
 def _key_kind(key) -> str:
-    """'full' if the key is an element of results.get_result_tags() (or obs.tag), 'base' if a literal."""
+    """'full' if the key ranges over results.get_result_tags() (or is obs.tag), 'base' if it is a literal."""
     k = strip_typed(key)
     if k[0] == "const" and isinstance(k[1], str):
         return "base"
     if k[0] == "elem":
-        src = strip_typed(k[1])
-        if src[0] in ("list", "tuple", "set") and all(x[0] == "const" for x in src[1]):
-            return "base"
-        if contains(src, lambda t: t[0] == "mcall" and t[2] == "get_result_tags"):
-            return "full"
-        if contains(src, lambda t: t[0] == "attr" and t[2] in ("_tagmap",)):
-            return "full"
-        if src[0] in ("call", "mcall", "comp") and contains(src, lambda t: t[0] == "mcall" and t[2] == "get_result_tags"):
-            return "full"
-        return "unknown"
+        return _src_kind(k[1])
     if k[0] == "attr" and k[2] == "tag":
         return "full"
     if k[0] == "attr" and k[2] == "_base_tag":
         return "base"
     if k[0] == "unpack":
         return _key_kind(k[1])
+    return "unknown"
+
+
+def _src_kind(src) -> str:
+    """Kind of the elements of an iterable term."""
+    s = strip_typed(src)
+    if s[0] in ("list", "tuple", "set"):
+        kinds = {_key_kind(x) for x in s[1]}
+        if not kinds:
+            return "empty"
+        return kinds.pop() if len(kinds) == 1 else ("base" if "base" in kinds else "unknown")
+    if s[0] == "mcall" and s[2] in ("get_result_tags", "keys") and not s[3]:
+        return "full" if s[2] == "get_result_tags" or "_tagmap" in show(s[1]) else "unknown"
+    if s[0] == "comp" and s[1] in ("list", "set", "gen") and len(s[2]) == 1:
+        return _key_kind(s[2][0])
+    if s[0] == "ifexp":
+        kinds = {_src_kind(s[2]), _src_kind(s[3])} - {"empty"}
+        if not kinds:
+            return "empty"
+        if "base" in kinds:
+            return "base"
+        return kinds.pop() if len(kinds) == 1 else "unknown"
+    if s[0] == "call" and s[1] in ("sorted", "list", "set", "tuple") and len(s[2]) == 1:
+        return _src_kind(s[2][0])
     return "unknown"
